@@ -81,6 +81,9 @@ type Mode struct {
 	// RowCount: revoking by request id reports fosite.ErrNotFound when no record matched (an UPDATE/DELETE that affected zero
 	// rows), which the handlers explicitly tolerate; the reference store answers nil.
 	RowCount bool
+	// TTL: access-token rows are evicted once their own expiry has passed (a TTL index / janitor), before the next call is
+	// served. Only sound for sequential use (the maps are touched without the reference store's locks).
+	TTL bool
 }
 
 // IStore wraps the reference MemoryStore.
@@ -185,6 +188,9 @@ func (s *IStore) enter(ctx context.Context, method string, req fosite.Requester,
 	if g := s.Gate; g != nil {
 		g(op, method)
 	}
+	if s.Mode.TTL {
+		s.evictExpired()
+	}
 	c := &Call{Op: op, Method: method, Keys: keys, Write: writeMethods[method]}
 	if req != nil {
 		c.ReqID = req.GetID()
@@ -211,6 +217,24 @@ func (s *IStore) enter(ctx context.Context, method string, req fosite.Requester,
 		}
 	}
 	return c, nil
+}
+
+// evictExpired implements Mode.TTL.
+func (s *IStore) evictExpired() {
+	now := time.Now()
+	for sig, r := range s.Mem.AccessTokens {
+		if r == nil || r.GetSession() == nil {
+			continue
+		}
+		if exp := r.GetSession().GetExpiresAt(fosite.AccessToken); !exp.IsZero() && exp.Before(now) {
+			delete(s.Mem.AccessTokens, sig)
+			for id, sg := range s.Mem.AccessTokenRequestIDs {
+				if sg == sig {
+					delete(s.Mem.AccessTokenRequestIDs, id)
+				}
+			}
+		}
+	}
 }
 
 func (s *IStore) leave(c *Call, err error) {
